@@ -80,6 +80,7 @@ BREAK = {
         (['C06.e'], FR, "        if frag_offset == 0:\n            reassm.first_frag = ctr.bundle", "        if reassm.first_frag is None:\n            reassm.first_frag = ctr.bundle"),
     ],
     'C07': [
+        (['C07.a'], S, "        while sock is self.__s_tls and sock.pending() > 0:\n            data = sock.recv(self.CHUNK_SIZE)\n            if not data:\n                break\n            self.recv_raw(data)\n", ""),
         (['C07.b'], 'tcpcl/contact.py', "        if len(s) < len(MAGIC_HEAD) + 1:\n            raise formats.VerifyError('Contact header too short')\n", ""),
         (['C07.b'], 'tcpcl/contact.py', "        if not self.payload:\n            raise formats.VerifyError('Contact header without payload')\n", ""),
         (['C07.b'], 'tcpcl/contact.py', "        if len(s) < len(MAGIC_HEAD) + 1:", "        if len(s) < len(MAGIC_HEAD):"),
@@ -90,6 +91,8 @@ BREAK = {
         (['C07.c'], M, "        formats.verify_sized_item(self.length, self.getfieldval('data'))\n", ""),
     ],
     'C08': [
+        (['C08.d'], BL, "    def do_dissect_payload(self, s):\n        ''' All items of a block array are fields of the block. '''\n        if s:\n            raise ValueError('Block array has {} extra items'.format(len(s)))\n\n", ""),
+        (['C08.d'], 'scapy_cbor/packets.py', "                if buf.tell() != len(s):\n                    # what follows the item would be silently lost\n                    raise ValueError('Extra data after the CBOR item')\n", ""),
         (['C08.a'], BA, "        ctr.bundle.update_all_crc()\n\n", "\n"),
         (['C08.b'], BA, "        if invalid_crc:\n            self._logger.warning('CRC invalid for block numbers: %s', invalid_crc)\n            return\n", "        if invalid_crc:\n            self._logger.warning('CRC invalid for block numbers: %s', invalid_crc)\n"),
         (['C08.d'], BL, "'func': crcmod.predefined.mkPredefinedCrcFun('x-25'),", "'func': crcmod.predefined.mkPredefinedCrcFun('crc-16'),"),
@@ -168,7 +171,8 @@ BREAK = {
     ],
     'C16': [
         (['C16.c'], SEC, "            elif isinstance(msg_obj, EncMessage):", "            elif isinstance(msg_obj, MacMessage):"),
-        (['C16.a'], SEC, "                    msg_dec = cbor2.loads(msg_enc)\n                    tgt_blk.setfieldval('btsd', msg_dec[2])\n                    msg_dec[2] = None\n\n                elif keyops.WrapOp", "                    msg_dec = cbor2.loads(msg_enc)\n                    msg_dec[2] = None\n\n                elif keyops.WrapOp"),
+        (['C16.a'], SEC, "                    msg_dec = cbor2.loads(msg_enc)\n                    tgt_blk.setfieldval('btsd', msg_dec[2])\n                    # a parsed payload would put the plaintext back\n                    # when the block is built\n                    tgt_blk.remove_payload()\n                    msg_dec[2] = None\n\n                elif keyops.WrapOp", "                    msg_dec = cbor2.loads(msg_enc)\n                    msg_dec[2] = None\n\n                elif keyops.WrapOp"),
+        (['C16.a'], SEC, "                    tgt_blk.remove_payload()\n                    msg_dec[2] = None\n\n                elif keyops.WrapOp", "                    msg_dec[2] = None\n\n                elif keyops.WrapOp"),
         (['C16.b'], SEC, "        if plaintext is not None:\n            LOGGER.info('Verified BCB num", "        if plaintext:\n            LOGGER.info('Verified BCB num"),
     ],
     'C17': [
@@ -186,6 +190,8 @@ BREAK = {
         (['C17.a2'], S, "                    if not self._in_sess:\n                        raise RejectError(messages.RejectMsg.Reason.UNEXPECTED)\n                    # Send a reply (if not the initiator)", "                    # Send a reply (if not the initiator)"),
     ],
     'C18': [
+        (['C18.a'], UA, "            if not 0 <= interval_ms < 2 ** 31:\n                # announced as INT32 on the bus\n                raise ValueError('Sender Listen interval {} out of range'.format(interval_ms))\n", ""),
+        (['C18.c'], S, "        item = self._rx_map[bid]\n\n        import shutil\n", "        item = self._rx_map[bid]\n        del self._rx_map[bid]\n\n        import shutil\n"),
         (['C18.e'], 'bp/cla.py', "conn_iface.connect_to_signal('session_state_changed', handle_state_change)", "conn_iface.connect_to_signal('session_state', handle_state_change)"),
         (['C18.a'], S, "            self.recv_bundle_finished(\n                str(item.transfer_id), recv_length, 'success')", "            self.recv_bundle_finished(\n                item.transfer_id, recv_length, 'success')"),
         (['C18.c'], S, "            self._tx_map.pop(item.transfer_id, None)\n            self._logger.warning('Terminating and ignoring", "            self._logger.warning('Terminating and ignoring"),
